@@ -128,7 +128,7 @@ CHECK_DEADLOCK FALSE
 """
 
 
-def judge(traces, chunked, inflate=(), shards=16, heap="768m", timeout=3000):
+def judge(traces, chunked, inflate=(), shards=16, heap="768m", timeout=3000, invariants=True):
     if not traces:
         return {}, []
     order = sorted(traces, key=lambda t: -sum(len(e["data"]) + len(e["buffer"]) + 8 for e in t["ev"]))
@@ -144,7 +144,7 @@ def judge(traces, chunked, inflate=(), shards=16, heap="768m", timeout=3000):
         path = os.path.join(common.scratch(), f"str-{os.getpid()}-{id(traces) % 100000}-{i}.json")
         with open(path, "w", encoding="utf-8") as f:
             json.dump({"traces": b, "inflate": list(inflate)}, f)
-        jobs.append(dict(module="SockTrace", cfg=CFG % (("TRUE", "") if chunked else ("FALSE", "INVARIANT PrefixOK\nINVARIANT SizeOK")), env={"VERIF_TRACES": path}, heap=heap, timeout=timeout))
+        jobs.append(dict(module="SockTrace", cfg=CFG % (("TRUE", "") if chunked else ("FALSE", "INVARIANT PrefixOK\nINVARIANT SizeOK" if invariants else "")), env={"VERIF_TRACES": path}, heap=heap, timeout=timeout))
     results = tlc.run_many(jobs)
     verdicts = {}
     for res in results:
